@@ -236,6 +236,21 @@ def c08_leak(r):
         shutil.rmtree(d, ignore_errors=True)
 
 
+def c18_fanout_size_limit(r):
+    import pickle
+    import diskcache
+    d = tempfile.mkdtemp()
+    try:
+        f = diskcache.FanoutCache(d, shards=4, size_limit=4000)
+        before = f._shards[0].size_limit
+        f.close()
+        g = diskcache.FanoutCache(d, shards=4)
+        after = g._shards[0].size_limit
+        return {'reproduced': before != after, 'observed': 'per-shard size_limit %r -> %r after reopen' % (before, after)}
+    finally:
+        shutil.rmtree(d, ignore_errors=True)
+
+
 def main():
     r = json.load(sys.stdin)
     try:
